@@ -1128,6 +1128,15 @@ M('C07', 'from_product_state: permutation flag initialised once before the loop 
   "        for p_st, site in zip(p_state, sites):\n            perm = permute\n",
   "        perm = permute\n        for p_st, site in zip(p_state, sites):\n", 'LOOP-carried-flag')
 
+M('C09', 'apply_local_term adds i_offset to i_min again (round-4 seed a)', MPS,
+  "                i = self._to_valid_site_index(i_min)\n                self.apply_JW_string_left_of_virt_leg(self._B[i], 'vL', i)",
+  "                i = self._to_valid_site_index(i_min + i_offset)\n                self.apply_JW_string_left_of_virt_leg(self._B[i], 'vL', i)",
+  'OFFSET-once')
+M('C09', 'compress_svd overwrites the accumulated error in the infinite sweep (round-4 seed b)', MPS,
+  "                trunc_err += self.set_svd_theta(i, theta, trunc_par, update_norm=False)\n        else:\n            raise NotImplementedError('unsupported boundary conditions '",
+  "                trunc_err = self.set_svd_theta(i, theta, trunc_par, update_norm=False)\n        else:\n            raise NotImplementedError('unsupported boundary conditions '",
+  'MPS-errflow')
+
 # ---------------------------------------------------------------- C16 / C19
 M('C16', 'GMRES restart: relative residual norm used for normalisation (round-3 seed b)', KRY,
   """        self.total_error.append([npc.norm(self.rs[-1]) / self.b_norm])
